@@ -1076,13 +1076,19 @@ class TransferManager(BaseManager):
                     transfer._transfer_progress_callback
                 )
 
+            # Everything was written: wait for the downloader to close the
+            # connection. Only an orderly close counts, when the connection
+            # breaks here it is unknown how much the downloader received: fail
+            # and tell the downloader, like for an error during sending
+            await connection.receive_until_eof()
+
         except OSError:
             logger.exception("error opening local file : %s", transfer.local_path)
             await transfer.state.fail(reason=FailReason.FILE_READ_ERROR)
             await connection.disconnect(CloseReason.REQUESTED)
 
-        except ConnectionWriteError:
-            logger.warning("error writing to socket for transfer : %s", transfer)
+        except (ConnectionWriteError, ConnectionReadError):
+            logger.warning("network error during upload of transfer : %s", transfer)
             await transfer.state.fail()
 
             # Possible this needs to be put in a task or just queued, if the
@@ -1118,7 +1124,6 @@ class TransferManager(BaseManager):
                 logger.debug("failed to send PeerUploadFailed message (possibly peer went offline)")
 
         else:
-            await connection.receive_until_eof(raise_exception=False)
             if transfer.is_transfered():
                 await transfer.state.complete()
             else:
